@@ -505,11 +505,98 @@ fn shape_sweep(ctx: &Ctx, rep: &mut Report, sys: &Sys) {
     println!("part shapes-and-counts: {} inputs through the parser, {} through 2 terminal states, {} violating", all.len(), sub.len(), bad.len() + tbad.len());
 }
 
+fn c20_scalars(tier: Tier) -> Vec<char> {
+    (0xa0u32..=0x10FFFF)
+        .filter(|&c| tier == Tier::Thorough || c < 0x3000 || (0xFE00..=0xFFFF).contains(&c) || (0x1F000..=0x1FAFF).contains(&c) || c % 251 == 0)
+        .filter_map(char::from_u32)
+        .collect()
+}
+
+/// Every scalar >= U+00A0 (a) where a CSI / ESC sequence expects its FINAL byte - no such
+/// character is an implemented final, whatever its low byte - with and without parameters,
+/// private markers and intermediates, through the bare parser with the continuation; and
+/// (b) inside the payload of every string kind when the string is CONTINUED BY A SECOND,
+/// LONG call (whatever a call does to find the end of an open string quickly, the payload
+/// character is payload): no changed line, identical screen, cursor and dump.
+fn scalars_in_sequences(ctx: &Ctx, rep: &mut Report) {
+    use rayon::prelude::*;
+    let scalars = c20_scalars(ctx.tier);
+    let heads = ["\x1b[", "\x1b[2", "\x1b[?25", "\x1b[4", "\x1b[1;2", "\u{9b}5", "\x1b[!", "\x1b[1 ", "\x1b#", "\x1b$", "\x1b"];
+    let bad_final: Vec<(char, String)> = scalars
+        .par_iter()
+        .filter_map(|&ch| {
+            for h in heads {
+                // after ESC alone a printable >= U+00A0 is an (unimplemented) final as well
+                let s = format!("{}{}", h, ch);
+                if let Err(e) = parser_inert(&s) {
+                    return Some((ch, format!("{}: {}", esc(&s), e)));
+                }
+            }
+            None
+        })
+        .collect();
+    // (b)
+    let kinds: [(&str, &str); 6] = [
+        ("\x1b]0;", "\x07"),
+        ("\x1b]8;;", "\x1b\\"),
+        ("\u{9d}2;", "\u{9c}"),
+        ("\x1bP1$q", "\x1b\\"),
+        ("\x1b_G", "\u{9c}"),
+        ("\x1bX", "\x1b\\"),
+    ];
+    let bad_cont: Vec<(char, String)> = scalars
+        .par_iter()
+        .filter_map(|&ch| {
+            let r = crate::engine::guarded(|| {
+                for (open, close) in kinds {
+                    for first in ["", "title "] {
+                        let mut vt = build_vt(12, 3, None);
+                        let _ = vt.feed_str("ab\r\ncd");
+                        let _ = vt.feed_str("");
+                        let before = (obs_full(&vt), vt.dump());
+                        let c1 = vt.feed_str(&format!("{}{}", open, first)).lines;
+                        let rest = format!("of a window, a long one {} and then some more of it{}", ch, close);
+                        let c2 = vt.feed_str(&rest).lines;
+                        if !c1.is_empty() || !c2.is_empty() {
+                            return Some(format!("{}{} | {}: changed lines reported {:?} {:?}", esc(open), first, esc(&rest), c1, c2));
+                        }
+                        let after = (obs_full(&vt), vt.dump());
+                        if after != before {
+                            return Some(format!("{}{} | {}: screen {:?} cursor {:?} -> {:?} cursor {:?}", esc(open), first, esc(&rest), before.0.rows, before.0.cursor, after.0.rows, after.0.cursor));
+                        }
+                    }
+                }
+                None
+            });
+            match r {
+                Ok(None) => None,
+                Ok(Some(d)) => Some((ch, d)),
+                Err(p) => Some((ch, format!("panic: {}", p))),
+            }
+        })
+        .collect();
+    let n = scalars.len() as u64;
+    rep.evaluations += n * (heads.len() as u64 + 12);
+    rep.traces_validated += n * (heads.len() as u64 + 12);
+    rep.parts.push(json!({"part":"every-scalar-as-final-and-in-continued-strings","scalars":n,"all_scalars":ctx.tier == Tier::Thorough,"sequence_heads":heads.len(),"string_kinds":kinds.len(),
+        "violating_as_final":bad_final.len(),"violating_in_continued_string":bad_cont.len()}));
+    println!("part every-scalar-as-final-and-in-continued-strings: {} scalars x {} sequence heads + {} string kinds x 2 cuts, {} + {} violating", n, heads.len(), kinds.len(), bad_final.len(), bad_cont.len());
+    for (ch, e) in bad_final.iter().take(2) {
+        emit_violation(ctx, rep, "C20", json!({"part":"every-scalar-as-final-and-in-continued-strings","scalar":*ch as u32,"oracle":"parser-inert","observed":e}));
+    }
+    for (ch, e) in bad_cont.iter().take(2) {
+        emit_violation(ctx, rep, "C20", json!({"part":"every-scalar-as-final-and-in-continued-strings","scalar":*ch as u32,"oracle":"screen-or-cursor-changed","observed":e}));
+    }
+    let extra = bad_final.len().saturating_sub(2) + bad_cont.len().saturating_sub(2);
+    rep.violations += extra as u64;
+}
+
 pub fn run(ctx: &Ctx) -> Report {
     let mut rep = Report::new();
     let sys = make(ctx.tier);
     deep_parser_sweep(ctx, &mut rep);
     shape_sweep(ctx, &mut rep, &sys);
+    scalars_in_sequences(ctx, &mut rep);
     // parser-level oracle once per inert input (independent of the seed)
     let mut pbad = 0;
     for i in &sys.inert {
@@ -540,6 +627,12 @@ pub fn run(ctx: &Ctx) -> Report {
 }
 
 pub fn replay(ctx: &Ctx, v: &Value) -> bool {
+    if v["part"] == "every-scalar-as-final-and-in-continued-strings" {
+        let mut rep = Report::new();
+        let c2 = Ctx { id: ctx.id.clone(), tier: Tier::Thorough, seed: 0, start: ctx.start, known: ctx.known.clone(), replay_dir: ctx.replay_dir.clone() };
+        scalars_in_sequences(&c2, &mut rep);
+        return rep.violations > 0;
+    }
     if v["part"] == "parser" {
         let r = parser_inert(v["input_raw"].as_str().unwrap());
         println!("{:?}", r);
